@@ -482,6 +482,7 @@ func (c14Driver) Run(spec *simrt.Spec, agg *Agg, keep bool) *Outcome {
 	specK.KeepLog = true
 	w := simrt.NewWorld(&specK)
 	var class, sig, msg string
+	var lowClass, lowMsg string
 	fail := func(c, s, f string, a ...interface{}) {
 		if class == "" {
 			class, sig, msg = c, s, fmt.Sprintf(f, a...)
@@ -610,6 +611,14 @@ func (c14Driver) Run(spec *simrt.Spec, agg *Agg, keep bool) *Outcome {
 					if len(m.Paths) == 0 {
 						cls = "roundtrip-error:no-paths" // a class of its own, so that minimising another failure cannot end here
 					}
+					if len(m.Paths) == 0 {
+						// a listed finding: reported for this world only if nothing else fails in it
+						if lowClass == "" {
+							lowClass, lowMsg = cls, fmt.Sprintf("UnmarshalJSON of the library's own output fails: %v (%s); paths %q black=%v", err, clip(string(j)), m.Paths, m.Black)
+						}
+						refs[i] = nil // its text cannot be decoded: the callers and the damaged-input phase leave this mask alone
+						return
+					}
 					fail(cls, cls, "UnmarshalJSON of the library's own output fails: %v (%s); paths %q black=%v", err, clip(string(j)), m.Paths, m.Black)
 					return
 				}
@@ -725,6 +734,9 @@ func (c14Driver) Run(spec *simrt.Spec, agg *Agg, keep bool) *Outcome {
 			r := simrt.NewRand(cx.Seed)
 			if cx.Kind == "path" {
 				ps := append([]string(nil), work.Masks[cx.Mask].Paths...)
+				if len(ps) == 0 {
+					continue
+				}
 				k := r.Intn(len(ps))
 				p := []byte(ps[k])
 				if len(p) > 0 {
@@ -825,6 +837,9 @@ func (c14Driver) Run(spec *simrt.Spec, agg *Agg, keep bool) *Outcome {
 	if res.ExitHow != "return" && class == "" {
 		class, sig = "crash", "crash:"+res.ExitHow
 		msg = fmt.Sprintf("%s %s %s", res.ExitHow, res.Verdict, firstLines(res.Panic, 12))
+	}
+	if class == "" && lowClass != "" {
+		class, sig, msg = lowClass, lowClass, lowMsg
 	}
 	o.Class, o.Sig, o.Msg = class, sig, msg
 	agg.Count("masks.built", nBuilt)
